@@ -612,6 +612,20 @@ def process_fn(tl, i, d, arg, out, unit):
         body = fb[bo:be + 1]
         body_src_line = line_of(src, it.body_open + bo)
         sig2 = wrapper_sig.strip() + ' '
+        # //@ closure-params a b : the wrapper's parameters a, b stand for the closure's own parameters, in order; when the
+        # source names them differently the TEMPLATE identifiers are renamed (the extracted body is never touched)
+        cp = next((a for k, a, ls in sections if k == 'closure-params'), None)
+        if cp:
+            actual = [x.strip().split(':')[0].strip() for x in re.match(r'\s*(?:move\s+)?\|([^|]*)\|', fb[j:]).group(1).split(',') if x.strip()]
+            ren = [(t, a) for t, a in zip(cp.split(), actual) if t != a and re.match(r'^[A-Za-z_]\w*$', a)]
+            if ren:
+                def _rn(txt):
+                    for t, a in ren:
+                        txt = re.sub(r'\b%s\b' % re.escape(t), a, txt)
+                    return txt
+                sig2 = _rn(sig2)
+                sections = [(k, a, [_rn(l) for l in ls] if k in ('spec', 'top', 'before', 'after', 'loop') else ls) for k, a, ls in sections]
+                log.append('closure parameters renamed in the template: %s' % ', '.join('%s->%s' % r_ for r_ in ren))
         qual = qual + '#closure:' + (next((a for k, a, ls in sections if k == 'name'), None) or 'c')
         log.append('T12 closure after `%s` wrapped as a function' % closure_pat)
     else:
@@ -633,11 +647,16 @@ def process_fn(tl, i, d, arg, out, unit):
     body = unreachable_msgs(body, log)
     body = raw_idents(body, log)
     for k, a, ls in sections:
-        if k == 'subst':
+        if k in ('subst', 'subst-opt'):
             # //@ subst <from> => <to>  : type-level substitution, logged (T5)
+            # //@ subst-opt ..           : same, but skipped when the anchor is absent (a closure annotation is only needed
+            #                              while the closure is there; a rewritten body is then verified as it stands)
             a1, _, b1 = a.partition('=>')
             a1, b1 = a1.strip(), b1.strip()
             if a1 not in body and a1 not in sig2:
+                if k == 'subst-opt':
+                    log.append('subst-opt anchor `%s` absent: skipped' % a1)
+                    continue
                 raise AnchorLoss('%s/%s: subst anchor `%s` missing' % (unit, qual, a1))
             body = body.replace(a1, b1)
             sig2 = sig2.replace(a1, b1)
@@ -743,7 +762,7 @@ def process_fn(tl, i, d, arg, out, unit):
                 break
             if not placed:
                 out.lost_hints.append({'fn': qual, 'anchor': a})
-        elif k in ('spec', 'arm-pattern', 'closure-pattern', 'wrap', 'subst', 'name', 'desugar-ops', 'wrap-ok', 'desugar-destructure', 'desugar-letchain'):
+        elif k in ('spec', 'arm-pattern', 'closure-pattern', 'wrap', 'subst', 'name', 'desugar-ops', 'wrap-ok', 'desugar-destructure', 'desugar-letchain', 'subst-opt', 'closure-params'):
             pass
         else:
             raise AnchorLoss('unknown section %s in %s' % (k, qual))
